@@ -221,6 +221,10 @@ func streamLex(o *Out, r *rand.Rand, n int, thorough bool) {
 			}
 		}
 	}
+	// block comments whose text starts or ends with the characters of the delimiters (`/*/` is an OPEN comment, not a complete one)
+	for _, c := range []string{"8 /*/ - 2 /*/ - 3", "\"a\" + /*/ \"b\" + /*/ \"c\"", "2 /*/ * 100 */ + 1", "/*/", "/*/ x", "/**/ 1", "/***/ 1", "/*/*/ 1", "/* * / */ 1", "1 /*/*/ + /**/ 2", "a = 1 /*//*/ + 2", "/*\n*/ 1", "x /* /* */ y", "1 /**/+/**/ 2 /*/ never closed"} {
+		items = append(items, item{"comment", c})
+	}
 	// every error a grammar action raises itself (not the generated parser), on first left-hand expressions of every kind,
 	// behind earlier lines and with trailing text: the position must lie in the text
 	lhss := []string{"a", "a[0:1]", "a[1:]", "<-c", "{\"k\": 1}", "a.b", "a[0]", "*p", "(a)", "f()", "[1, 2]", "a[0:1][0]", "-a", "!a", "m[\"k\"]"}
